@@ -147,3 +147,17 @@ def divAxis (p d : AxisVal) : AxisVal :=
   { imag := xor p.imag d.imag, val := p.val / dv }
 
 end Pb.DayFrac
+
+namespace Pb.DayFrac
+
+/-- the final step of `Phase.__array_ufunc__` for floor_divide / remainder / divmod (exact-rational
+view): given a quotient estimate `fd`, compare the exact remainder with zero and with the divisor and
+move the quotient by one where needed -/
+def settle (A B : Rat) (fd : Int) : Int × Rat :=
+  let r := A - fd * B
+  let under : Bool := if 0 < B then decide (r < 0) else decide (0 < r)
+  let over : Bool := (if 0 < B then decide (B ≤ r) else decide (r ≤ B)) && decide (B ≠ 0)
+  let fd' := fd + (if over then 1 else 0) - (if under then 1 else 0)
+  (fd', A - fd' * B)
+
+end Pb.DayFrac
